@@ -1365,8 +1365,10 @@ MANIFEST_ENTRY = {
              'path, indexed by dft2 / idft2 / dft2_backprop / idft2_backprop / czt2 after _setup_bases(key), re-initialised by clear(); '
              'this protocol is TRANSLATED per executor and its soundness is an obligation): after every history of calls of any entry '
              'point and clear()s a call raises no KeyError and every entry it indexes is the freshly built one (invariant by induction '
-             'over histories); examples show each soundness clause is necessary. Key normalisation in _key (broadcast / int / float) and '
-             'Python equality of keys are outside the machine (history stream only). Every translated obligation is consumed by a property '
+             'over histories); examples show each soundness clause is necessary. (7) the normalisation of argument forms in _key and in the head of czt2 is TRANSLATED (per parameter: scalar broadcast, '
+             'element conversion float / int / as given; both engines alike) and two forms give the same key component exactly when they '
+             'denote the same sampling after the conversion (no TypeError for any form). Python equality of unconverted key elements '
+             '(1 == 1.0 in a shift) is outside the machine (history stream only). Every translated obligation is consumed by a property '
              'theorem. MODELLED AND COMPARED each run: NumPy execution of all routes (incl. dtype promotion, argument forms, dispatch '
              'layer, Wavefront wrappers, backprop entry points, histories) against the Lean model evaluated in Float and the Lean '
              'double-sum oracle; sizes beyond 26 only against a NumPy double sum.'),
